@@ -195,11 +195,19 @@ func VerifLifecycleInitResume() {
 		reopen := w.src.opens[len(w.src.opens)-1]
 		w.mu.Unlock()
 		verifAssert(reopen == stored, "c03-reopened-with-wrong-position")
-		verifAssert(svc.StopAndWait(ctx, "pl") == nil, "c11-live-run-cannot-be-stopped")
+		serr := svc.StopAndWait(ctx, "pl")
+		if serr != nil {
+			verifObserve("stop-and-wait-error", serr.Error())
+		}
+		verifAssert(serr == nil, "c11-live-run-cannot-be-stopped")
 		w.mu.Lock()
 		// reading resumed right after the stored position, nothing read was dropped
 		for k, i := range w.src.emitted {
 			verifAssert(i == stored+1+k, "c03-resumed-run-skipped-a-record")
+		}
+		// what reached the destination was handled and acknowledged; a record read
+		// but not yet handed on when the stop arrived is read again next time
+		for _, i := range w.dests["dest0"].written {
 			verifAssert(w.handledLocked(i), "c03-record-after-stored-position-lost")
 		}
 		w.mu.Unlock()
